@@ -978,7 +978,13 @@ pub async fn start_replication_supervisor(
                             );
                             guards.push(guard);
                         } else {
-                            panic!("Re-adding a secoundary that alrady exists!!!")
+                            // e.g. a node that restarted and asked to join again before its old
+                            // membership was removed, or that is already known through another
+                            // member: nothing to add, and no reason to take the node down
+                            log::warn!(
+                                "[start_replication_creator_thread] {} is already a member, ignoring",
+                                name
+                            );
                         }
                     }
 
